@@ -4,7 +4,8 @@ import hashlib
 import json
 from common import cN, cZ, cnat, cbool, clist, copt, cpair
 
-COLS = ['params', 'batch_stats', 'cache', 'intermediates', 'perturbations', 'counter', 'aux']
+# 'stats' is a substring of 'batch_stats' and 'count' of 'counter': a filter given as one name must not match by containment
+COLS = ['params', 'batch_stats', 'cache', 'intermediates', 'perturbations', 'counter', 'aux', 'stats', 'count']
 COLCODE = {c: i for i, c in enumerate(COLS)}
 STREAMS = ['params', 'dropout', 'noise']
 NAMES = ['w', 'b', 'k', 'mean', 'count', 'h', 'sub', 'inner', 'blk']
@@ -159,7 +160,7 @@ def gen_program(rng, n, max_depth=3, features=None, malformed=0.0):
         locals_.append(x)
       elif r < 0.40 and 'var' in features:
         x = newloc()
-        col = rng.choice(['batch_stats', 'cache', 'counter'])
+        col = rng.choice(['batch_stats', 'cache', 'counter', 'stats', 'count'])
         nm = fresh_name()
         body.append(['var', x, col, nm, rng.choice([n, 1]), rng.randint(0, 2)])
         locals_.append(x)
@@ -200,7 +201,7 @@ def gen_program(rng, n, max_depth=3, features=None, malformed=0.0):
 
 def gen_filter(rng):
   r = rng.random()
-  cols = ['params', 'batch_stats', 'cache', 'intermediates', 'counter', 'aux', 'perturbations']
+  cols = ['params', 'batch_stats', 'cache', 'intermediates', 'counter', 'aux', 'perturbations', 'stats', 'count']
   if r < 0.15:
     return False
   if r < 0.3:
